@@ -120,7 +120,8 @@ def checkStep (ssa : Bool) (pre : St) (o : Out) : String :=
   else if !ssa && !oj (alookup "connectionDetails" pst) (alookup "connectionDetails" cst) then "C07:xr-status-machinery-on-claim"
   else if ps.any (fun (k, v) => (owner k == .xrOnly || owner k == .eachSide || k == "compositeDeletePolicy") && !oj (alookup k cs) (some v)) then "C07:xr-field-in-claim-spec"
   else if ssa && ps.any (fun (k, v) => (owner k == .user || (owner k == .shared && k != "compositionRef")) && !oj (alookup k cs) (some v)) then "C07:claim-spec-changed"
-  else if cs.any (fun (k, _) => (alookup k ps).isNone) then "C07:claim-spec-changed"
+  else if cs.any (fun (k, _) => (alookup k ps).isNone &&
+      !(k == "compositionRevisionRef" && !ssa && policyOf (xrSpecFields o.st.xr) == some "Automatic")) then "C07:claim-spec-changed"
   else ""
 
 def runAll (s : St) : List Op → List Json → String → List Json × String
